@@ -302,6 +302,8 @@ func SameBlockScenarios(g *Gen, b *Builder) {
 		})
 	case 4:
 		b.V1FormThenProve()
+	case 6: // byte-identical data-only transactions, repeated inside the block and across blocks
+		b.DataOnly()
 	case 5: // the same contract revised twice (or revised and renewed) inside one block
 		if b.V1Revise() {
 			b.V1ReviseAgainInBlock()
